@@ -125,6 +125,9 @@ func (g *genState) makeOp(conn int, op string) Step {
 		st.Ent = g.entRef(70)
 		st.Seq = float32(g.counter)
 		st.NoPose = r.Bool(g.p.PNoPose)
+		if r.Bool(0.12) {
+			st.Variant = "repeat"
+		}
 	case "custom":
 		if r.Bool(0.7) {
 			st.BodyLen = bodyLens[r.Intn(len(bodyLens))]
@@ -172,7 +175,7 @@ func (g *genState) makeOp(conn int, op string) Step {
 	case "action":
 		st.Ent = g.entRef(30)
 		st.Name = g.pick([]string{"open", "spin", ""}, []int{50, 42, 8})
-		st.TSKind = g.pick([]string{"now", "equal", "older", "older_ns", "future", "zero", "negative", "nil"}, []int{40, 12, 14, 6, 8, 6, 6, 8})
+		st.TSKind = g.pick([]string{"now", "equal", "older", "older_ns", "future", "far_future", "zero", "negative", "nil"}, []int{40, 12, 16, 6, 6, 8, 5, 5, 7})
 		st.Data = fmt.Sprintf("a%d", g.counter)
 		st.N = r.Intn(5)
 		if r.Bool(0.04) {
@@ -361,6 +364,9 @@ func GenHistory(seed uint64, p *Profile) *Scenario {
 				default:
 					st = g.makeOp(bc, op)
 					st.NoPose = false
+					if op == "type_add" {
+						st.Name = typeNames[g.nextBlk%3] // the members of a block register the same name
+					}
 				}
 				st.Block = g.nextBlk
 				g.steps = append(g.steps, st)
